@@ -1,7 +1,7 @@
 #!/bin/bash
 # tools/run_all.sh <tier> [Cnn ...] : run checks one after the other against /repo, print each summary line
 tier=${1:-quick}; shift
-cd /verif
+cd "$(dirname "$(readlink -f "$0")")/.."
 list="$@"; [ -z "$list" ] && list="C01 C02 C03 C04 C05 C06 C07 C08 C09 C10 C11 C12 C13 C14 C15 C16 C18 C19 C20"
 for c in $list; do
   s=$(date +%s)
